@@ -88,7 +88,7 @@ impl Property for C16 {
         "C16"
     }
     fn rule(&self) -> &'static str {
-        "case = a text of 0-60 (thorough: up to 6,000, beyond the 4,096 window) pieces over terminators, ・ runs, <br> tags, both kinds of brackets (nested, unbalanced), commas, \
+        "case = a text of 0-40 pieces (literals, the dictionary's own words, runs of one piece of 2^k-1 / 2^k / 2^k+1 repetitions up to 600, thorough 5,000; a family padded to the 4,096 window end) over terminators, ・ runs, <br> tags, both kinds of brackets (nested, unbalanced), commas, \
          alphanumerics and kanji numerals, quote particles, neutral 1-4 byte characters and whitespace; a window limit 1-12 or the default; with / without the dictionary based \
          non-break check, the dictionary containing the terminator as a one-character word, words containing / ending with / starting with it, and plain words. Oracle: ranges are \
          non-empty, contiguous from 0 to the end, on character boundaries, slices equal the text, iteration stops within len+1 steps; every sentence but the last ends with a \
@@ -104,15 +104,55 @@ impl Property for C16 {
     }
     fn strategy(&self, tier: Tier) -> BoxedStrategy<Case> {
         let maxp = tier.pick(40usize, 120usize);
-        let general = (vec(word(), 0..8), vec(text_piece(), 0..=maxp), prop::option::weighted(0.6, 1usize..=12), any::<bool>())
-            .prop_map(|(words, t, limit, checker)| Case { words, text: t.concat(), limit, checker, simple: false });
+        // text pieces are literals, the dictionary's own words (so that words containing a terminator
+        // really occur, also across the end of the window), or long runs of one piece (bracket
+        // depths and sentence lengths on both sides of 2^k and of the 4,096 window)
+        #[derive(Clone, Debug)]
+        enum TP {
+            Lit(String),
+            Word(u16),
+            Run(String, usize),
+        }
+        let run_unit = select(vec!["(", "（", "「", ")", "」", "あ", "a", "。", "あ。", "(あ。", "・", "<br>", ",", "な。な", "𠮷"]);
+        let tp = prop_oneof![
+            12 => text_piece().prop_map(TP::Lit),
+            5 => any::<u16>().prop_map(TP::Word),
+            1 => (run_unit, crate::gen::boundary_len(tier.pick(600, 5000))).prop_map(|(u, n)| TP::Run(u.to_string(), n)),
+        ];
+        fn render(words: &[String], t: &[TP]) -> String {
+            let mut s = String::new();
+            for p in t {
+                match p {
+                    TP::Lit(l) => s.push_str(l),
+                    TP::Word(i) => {
+                        if !words.is_empty() {
+                            s.push_str(&words[crate::gen::ix(*i, words.len())]);
+                        }
+                    }
+                    TP::Run(u, n) => {
+                        for _ in 0..*n {
+                            s.push_str(u);
+                        }
+                    }
+                }
+            }
+            s
+        }
+        let general = (vec(word(), 0..8), vec(tp.clone(), 0..=maxp), prop::option::weighted(0.6, 1usize..=12), any::<bool>())
+            .prop_map(|(words, t, limit, checker)| Case { text: render(&words, &t), words, limit, checker, simple: false });
+        // a text longer than the default window whose window end falls among dictionary words and terminators
+        let straddle = (vec(word(), 1..8), 4070usize..4100, vec(tp, 1..=30), any::<bool>()).prop_map(|(words, pad, t, checker)| {
+            let mut text = "あ".repeat(pad);
+            text.push_str(&render(&words, &t));
+            Case { text, words, limit: None, checker, simple: false }
+        });
         let simple = (vec(simple_word(), 0..6), simple_text(40), prop::option::weighted(0.3, 40usize..=60), any::<bool>())
             .prop_map(|(words, text, limit, checker)| Case { words, text, limit, checker, simple: true });
         let long = (vec(word(), 0..4), vec(text_piece(), 1..=20), 1usize..400, any::<bool>()).prop_map(|(words, unit, reps, checker)| {
             let u = unit.concat();
             Case { words, text: u.repeat(reps * 4), limit: None, checker, simple: false }
         });
-        prop_oneof![6 => general, 3 => simple, tier.pick(0, 1) => long].boxed()
+        prop_oneof![12 => general, 6 => simple, 1 => straddle, tier.pick(0, 2) => long].boxed()
     }
     fn cases_per_shard(&self, tier: Tier) -> u32 {
         tier.pick(6000, 100000)
